@@ -13,7 +13,7 @@ CLAIMS = [
              "TLC, the JSON community module and the Rust projection code are trusted",
      "ref": "DESIGN.md section 6 (C02)"},
     {"id": "C04",
-     "technique": "TLC model check of Tiered.tla (S2, adversarial pokes) + TLC-generated behaviours replayed on real TieredEngine + TLC trace validation against KV spec",
+     "technique": "TLC model check of Tiered.tla (S2, adversarial pokes) + TLC-generated behaviours replayed on real TieredEngine + TLC trace validation of every answer against the KV spec and of the recorded internal state of every run against Tiered.tla (TieredTrace.tla)",
      "text": "Tiered.tla models the cache / recent-write-mirror / canonical-store lookup protocol with coherence tokens, drains, audits, bulk loads "
              "and adversarial pokes; TLC checks ReadsCanonical and DrainNeutral exhaustively for small constants. The same module generates "
              "thousands of behaviours that are executed on the real TieredEngine for all four cache strategies, three capacity/hard-limit "
@@ -30,7 +30,7 @@ CLAIMS = [
      "note": "A/B strategy bound is per arm (as the server constructs it); query-result cache growth is exercised by the search lab",
      "ref": "DESIGN.md section 6 (C20)"},
     {"id": "C01",
-     "technique": "recorded fs-effect trace -> TLC (FsCrash.tla) enumerates crash states -> real strict recovery on each -> TLC trace validation (DurabilityOracle.tla)",
+     "technique": "TLC model check of the storage protocol (Durability.tla) + recorded fs-effect trace validated against it (DurabilityTrace.tla) -> TLC (FsCrash.tla) enumerates crash states -> real strict recovery on each -> TLC trace validation (DurabilityOracle.tla)",
      "text": "Each TLC-generated history runs on the real persistent backend in a child process under an LD_PRELOAD shim that records every "
              "write/fsync/rename/unlink/truncate with payloads and call/return marks. The child is really killed before every effect; FsCrash.tla, "
              "instantiated with the recorded effects, lets TLC enumerate every power-loss view (per-inode and per-directory durable prefixes); torn "
@@ -105,7 +105,7 @@ CLAIMS = [
      "note": "fsync policy Never (no crash here; C01 owns crashes); schedules that do not complete are C08's subject",
      "ref": "DESIGN.md section 6 (C09)"},
     {"id": "C06",
-     "technique": "TLC model check of TieredSearch.tla (S2) + TLC-generated behaviours replayed on real TieredEngine (3 metrics x 11 dimensions, 4 search flavours) + TLC trace validation against the search oracle (SearchTrace.tla)",
+     "technique": "TLC model check of TieredSearch.tla (S2) + TLC-generated behaviours (search flavour, batches, scopes chosen by the model) replayed on real TieredEngine (3 metrics x 11 dimensions) + TLC trace validation against the search oracle (SearchTrace.tla); searches racing tombstone compaction under TLC-enumerated schedules",
      "text": "TieredSearch.tla models search over the recent-write tier + canonical store with the query-result cache on an integer line; TLC checks "
              "AnswersValid / HitIsFresh exhaustively for small constants and generates behaviours; searchlab maps positions to concrete vectors that "
              "preserve the distance order (unit circle / line families, SIMD-tail dimensions, origins with components > 1, tail-energy variants) and "
